@@ -19,7 +19,7 @@ RULE = ("case = (seed): a random spot path (3..40 dates, d = 1..3), strikes / ba
         "distinct seed")
 ASSUMPTIONS = ["LookBack is excluded (its process() raises by design)",
                "purity and identities are exact or 1e-12 relative (pure floating-point formulas)"]
-REQUIRED_COUNTERS = ["purity_checks", "representation_equivalence", "parity_identities", "barrier_identities", "average_bounds", "path_manager_pairs", "control_variate_products_on_paths", "shared_object_evaluations",
+REQUIRED_COUNTERS = ["purity_checks", "representation_equivalence", "parity_identities", "barrier_identities", "average_bounds", "path_manager_pairs", "control_variate_products_on_paths", "shared_object_evaluations", "control_variates_with_their_own_parameters",
                      "default_time_checks", "nth_default_monotone", "notional_linearity"]
 MIN_NONTRIVIAL = {"quick": 100, "thorough": 2000}
 THOROUGH_ROUNDS = 15      # the thorough tier runs the generators this many times (different seeds)
@@ -330,6 +330,35 @@ def run_case(case, R):
                         f"{got2.tolist()}, alone {[alone_cv(path1), alone_cv(coarse_path)]}", wit)
     except Exception as exc:  # noqa: BLE001
         R.violation("path-manager-raises", f"path manager with a barrier control variate raises {type(exc).__name__}: {exc}", wit)
+    # ---- control variates whose underlying is of the same class as the product's underlying but has its own parameters (another asset,
+    #      other thresholds, other initial spots), or is implied from it (n-th spot under a product on all spots): each control is worth
+    #      what it is worth alone on the path
+    if d >= 2:
+        zero_j = np.zeros_like(S)
+        pairs = [("NthSpot", U.NthSpot(1), U.NthSpot(2)),
+                 ("Indicators", U.Indicators([float(v) * 0.9 for v in S_T]), U.Indicators([float(v) * 1.1 for v in S_T])),
+                 ("Performances", U.Performances([float(v) for v in s0]), U.Performances([2.0 * float(v) for v in s0])),
+                 ("Spot-NthSpot", U.Spot(), U.NthSpot(d))]
+        for pname, und_main, und_ctrl in pairs:
+            try:
+                pay_main = P.PayoffOnTheFly(lambda x: float(np.sum(x))) if pname in ("Performances", "Spot-NthSpot") else P.Forward(strike=0.0)
+                pay_ctrl = P.PayoffOnTheFly(lambda x: float(np.sum(x))) if pname == "Performances" else P.Forward(strike=0.0)
+                main2 = Product(payoff_underlying=und_main, payoff=pay_main, maturity=1.0)
+                ctrl2 = Product(payoff_underlying=und_ctrl, payoff=pay_ctrl, maturity=1.0)
+                alone = float(np.asarray(ctrl2(ctrl2.underlying_value(times, S, zero_j))).reshape(-1)[0])
+                cvs2 = ControlVariates(products=[ctrl2], prices=[1.0])
+                cvs2.initialisation(type(main2.payoff_underlying))
+                pm3 = MCPath(deterministic_path=lambda t: np.zeros((d, np.size(t))), activate_spot_underlying=False)
+                pm3.set_to_path(StochasticJumpPath(times, S, zero_j))
+                pm3.process(main2, cvs2)
+                got3 = float(np.asarray(pm3.payoff_control_variates, dtype=float).reshape(-1)[0])
+            except Exception as exc:  # noqa: BLE001
+                R.violation(f"control-variate-with-its-own-parameters-raises-{pname}", f"{pname}: {type(exc).__name__}: {exc}", wit)
+                continue
+            R.hit("control_variates_with_their_own_parameters")
+            if not (abs(got3 - alone) <= 1e-12 * (1 + abs(alone))):
+                R.violation(f"control-variate-valued-with-the-underlying-of-the-product-{pname}", f"{pname}: the control variate is worth {alone!r} on the path, the path "
+                            f"manager stores {got3!r} (the product's own underlying has other parameters)", wit)
     # ---- averages -----------------------------------------------------------------------------------------------------------------
     if d == 1:
         for rep in (PR.IDENDITY, PR.LOG):
